@@ -105,7 +105,7 @@ Definition threshold (cfg : eval_cfg) (gp : Z) : Z :=
 (** ** Table access.  Go indexes fixed-size arrays; the model reads the dumped tables with
     [nth_error].  [evaluate] first checks [pos_ok] (all piece codes valid, 64 squares, side
     to move 0/1) and answers None otherwise; under that guard every index is in range
-    (EvalProofs.lookups_in_range), so the [dflt] below is never taken. *)
+    (EvalProofsA.lookups_in_range), so the [dflt] below is never taken. *)
 Definition tblZ (t : list Z) (i : N) : option Z := nth_error t (N.to_nat i).
 Definition tbl2 (t : list (list Z)) (i j : N) : option Z :=
   match nth_error t (N.to_nat i) with Some r => nth_error r (N.to_nat j) | None => None end.
